@@ -276,6 +276,91 @@ class CFG:
         r = self.reach(self.entry, avoid_edges=avoid)
         return [t for t in targets if t in r]
 
+    def reach_feasible(self, starts, avoid_nodes=(), avoid_edges=(), explicit_only=False):
+        """like reach(), but paths contradicting what is known about local sentinels are dropped: after `x = None`
+        (or `x = <constant>`) the branch of a later `if x is None` / `if x` / `if not x` that contradicts it is not
+        followed until x is assigned again.  Only plain local names are tracked."""
+        if isinstance(starts, int):
+            starts = [starts]
+        avoid_nodes = set(avoid_nodes)
+        seen = set()
+        work = [(st, frozenset()) for st in starts if st not in avoid_nodes]
+        out = set()
+        while work:
+            x, facts = work.pop()
+            if (x, facts) in seen:
+                continue
+            seen.add((x, facts))
+            out.add(x)
+            s = self.stmt[x]
+            for (y, lab) in self.succ[x]:
+                if y in avoid_nodes or (x, y, lab) in avoid_edges:
+                    continue
+                if explicit_only and lab == 'exc' and isinstance(s, ast.AST) and not isinstance(s, ast.Raise):
+                    continue
+                f2 = dict(facts)
+                if isinstance(s, (ast.If, ast.While)) and lab in ('T', 'F'):
+                    dead = False
+                    for name, val in facts:
+                        isname = (lambda e, name=name: isinstance(e, ast.Name) and e.id == name)
+                        tn, fn_ = truth_on_branch(s.test, none_atom(isname))
+                        known_none = tn if lab == 'T' else fn_
+                        if known_none is not None and known_none != (val == 'none'):
+                            dead = True
+                        tt, tf = truth_on_branch(s.test, truthy_atom(isname))
+                        known_true = tt if lab == 'T' else tf
+                        if known_true is True and val in ('none', 'falsy'):
+                            dead = True
+                        if known_true is False and val == 'truthy':
+                            dead = True
+                    if dead:
+                        continue
+                elif isinstance(s, ast.AST) and lab != 'exc':
+                    for t in _stored_simple(s):
+                        f2.pop(t, None)
+                    if isinstance(s, ast.Assign) and len(s.targets) == 1 and isinstance(s.targets[0], ast.Name) \
+                            and isinstance(s.value, ast.Constant):
+                        v = s.value.value
+                        f2[s.targets[0].id] = 'none' if v is None else ('truthy' if v else 'falsy')
+                work.append((y, frozenset(f2.items())))
+        return out
+
+    # -- polarity-independent guards -------------------------------------------
+    def cond_edges(self, atom, value):
+        """edges (x, y, lab) out of If/While heads on which the atomic condition recognised by `atom` is known to
+        have the truth value `value`.  atom(expr) -> True if expr IS the condition, "neg" if expr is its negation,
+        None otherwise; `not`, `and`, `or` around it are understood (truth_on_branch)."""
+        out = []
+        for n, s in self.stmt.items():
+            if isinstance(s, (ast.If, ast.While)):
+                vt, vf = truth_on_branch(s.test, atom)
+                for (y, lab) in self.succ[n]:
+                    if lab == 'T' and vt is value:
+                        out.append((n, y, lab))
+                    elif lab == 'F' and vf is value:
+                        out.append((n, y, lab))
+        return out
+
+    def only_when(self, targets, atom, value, start=None):
+        """targets reachable without passing an edge on which atom is known to be `value` (empty: properly guarded)"""
+        avoid = set(self.cond_edges(atom, value))
+        r = self.reach(start or self.entry, avoid_edges=avoid)
+        return [t for t in targets if t in r]
+
+    def when_never_reaches(self, atom, value, targets, explicit_only=False):
+        """(number of edges on which atom is known `value`, targets reachable from one of them)"""
+        edges = self.cond_edges(atom, value)
+        bad = set()
+        for (x, y, lab) in edges:
+            r = self.reach([y], explicit_only=explicit_only)
+            bad |= (set(targets) & r)
+        return len(edges), sorted(bad)
+
+    def when_always_raises(self, atom, value):
+        """atom known `value` on some edge, and no such edge leads to the normal exit"""
+        n, bad = self.when_never_reaches(atom, value, [self.exit])
+        return n > 0 and not bad
+
     def precedes(self, a_nodes, b_nodes):
         """every path ENTRY -> some b passes some a first; returns the b nodes reachable without a"""
         r = self.reach(self.entry, avoid_nodes=set(a_nodes))
@@ -293,6 +378,86 @@ class CFG:
         if isinstance(s, tuple):
             s = s[1]
         return getattr(s, "lineno", 0)
+
+
+def _stored_simple(s):
+    """local names (re)bound by the simple statement / compound head s"""
+    out = set()
+    nodes = []
+    if isinstance(s, (ast.For, ast.AsyncFor)):
+        nodes = [s.target]
+    elif isinstance(s, (ast.With, ast.AsyncWith)):
+        nodes = [i.optional_vars for i in s.items if i.optional_vars is not None]
+    elif isinstance(s, ast.ExceptHandler):
+        return {s.name} if s.name else set()
+    elif isinstance(s, (ast.If, ast.While, ast.FunctionDef, ast.AsyncFunctionDef, ast.ClassDef)):
+        nodes = []
+    else:
+        nodes = [s]
+    for top in nodes:
+        for n in ast.walk(top):
+            if isinstance(n, ast.Name) and isinstance(n.ctx, (ast.Store, ast.Del)):
+                out.add(n.id)
+            elif isinstance(n, ast.NamedExpr) and isinstance(n.target, ast.Name):
+                out.add(n.target.id)
+    return out
+
+
+def truth_on_branch(test, atom):
+    """(value of the atomic condition when `test` is true, value when `test` is false); None = unknown"""
+    a = atom(test)
+    if a is True:
+        return (True, False)
+    if a == "neg":
+        return (False, True)
+    if isinstance(test, ast.UnaryOp) and isinstance(test.op, ast.Not):
+        t, f = truth_on_branch(test.operand, atom)
+        return (f, t)
+    if isinstance(test, ast.BoolOp):
+        vals = [truth_on_branch(v, atom) for v in test.values]
+        if isinstance(test.op, ast.And):
+            ts = [t for (t, f) in vals if t is not None]
+            return (ts[0] if ts and all(x is ts[0] for x in ts) else None, None)
+        fs = [f for (t, f) in vals if f is not None]
+        return (None, fs[0] if fs and all(x is fs[0] for x in fs) else None)
+    return (None, None)
+
+
+def truthy_atom(pred):
+    """atom for the truthiness of an expression e with pred(e): `e`, `bool(e)`, `e is not None` (true side only is
+    not exact, so only `e` / `not e` / `len(e) > 0`-free forms are accepted) """
+    def atom(x):
+        if pred(x):
+            return True
+        if isinstance(x, ast.Call) and isinstance(x.func, ast.Name) and x.func.id == "bool" and len(x.args) == 1 and pred(x.args[0]):
+            return True
+        return None
+    return atom
+
+
+def cmp_atom(left_pred, right_pred, pos_ops=(ast.Eq,), neg_ops=(ast.NotEq,), symmetric=True):
+    """atom for a comparison `L op R` (operands in either order when symmetric)"""
+    def atom(x):
+        if isinstance(x, ast.Compare) and len(x.ops) == 1:
+            l, r = x.left, x.comparators[0]
+            hit = (left_pred(l) and right_pred(r)) or (symmetric and left_pred(r) and right_pred(l))
+            if hit:
+                if isinstance(x.ops[0], tuple(pos_ops)):
+                    return True
+                if isinstance(x.ops[0], tuple(neg_ops)):
+                    return "neg"
+        return None
+    return atom
+
+
+def none_atom(pred):
+    """atom `e is None` (negation: `e is not None`); also `e == None`"""
+    return cmp_atom(pred, lambda r: isinstance(r, ast.Constant) and r.value is None, (ast.Is, ast.Eq), (ast.IsNot, ast.NotEq),
+                    symmetric=False)
+
+
+def in_atom(item_pred, container_pred):
+    return cmp_atom(item_pred, container_pred, (ast.In,), (ast.NotIn,), symmetric=False)
 
 
 def build(fn):
